@@ -5,7 +5,7 @@
    condition does not contain the `throws` keyword (Scope/GrammarAllProofsCex.v) — hence the side
    condition `no_throws_kw` on conditions (citems of GrammarAllProofsItems.v). *)
 From Verif Require Import Base Regex Token TokEngine Headers Blocks Spec HeaderSpec LexShapes Grammar GrammarAll.
-From Verif Require Import GrammarProofsParen GrammarProofsBrace GrammarProofsHeaders GrammarAllProofsWf.
+From Verif Require Import GrammarProofsParen GrammarProofsBrace GrammarProofsHeaders GrammarAllProofsTok.
 From Verif Require Import GrammarAllProofsSel GrammarAllProofsCand GrammarAllProofsItems.
 From Coq Require Import Sorted Permutation.
 Open Scope nat_scope.
@@ -236,6 +236,8 @@ Proof.
     + apply (no_acc_app _ _ cshift_plain fshift_throws).
       * destruct Hcond as [->|[Hg _]]; [apply no_acc_nil | apply groups_throws_no_acc; assumption].
       * apply no_acc_single. apply plain_not_name. eapply symbol_not_name; exact Ho.
+  - intros pre o flat cl B. apply (init_front_no_acc_gen _ _ cshift_plain fshift_throws).
+    intros W HW. apply acc_cand_none, chain_plain, HW.
   - intros pre B Hpre HB. apply (prefix_no_plain LJava); [exact Hpre | exact HB | apply cshift_plain | apply fshift_throws].
 Qed.
 
@@ -247,7 +249,7 @@ Proof.
                 oksel_java (good_oksel _ _ _ _ (good_never LJava)) head_split_java ts ds H) as HP.
   unfold shape_headers at 2 in HP. rewrite select_never, app_nil_r in HP.
   unfold lexical_headers_Java.
-  rewrite (canonical_no_drop LJava ts ds _ (citems_items_of _ _ _ _ _ _ (fun _ X => X) H) HP). exact HP.
+  rewrite (canonical_no_drop _ _ LJava ts ds _ H HP). exact HP.
 Qed.
 
 Theorem canonical_java ts ds : canonical_program_of LJava ts ds ->
